@@ -309,9 +309,41 @@ def paint_variants_case(draw, formats, tier, tolerances=None):
     return {"cfg": cfg, "sources": sources}
 
 
+@st.composite
+def overlay_case(draw, formats, tier, tolerances=None):
+    """The way artwork is usually shaded: one outline drawn twice at the same place, flat fill below and a gradient overlay above
+    (reuse by the identity transform, with a gradient - often an elliptical radial one - on the copy), in one glyph or split
+    over two; plus a glyph that shares no outline with them but uses the very same gradient."""
+    from ..gen_svg import cmds_bbox, gradient_paint, placement, transform_cmds, unit_shape, view_box
+
+    cfg = draw(font_config(formats, transforms=False, max_upem=4096))
+    if tolerances is not None:
+        cfg["reuse_tolerance"] = draw(st.sampled_from(tolerances))
+    vb = draw(view_box())
+    unit = draw(unit_shape(("polygon", "cubic", "quad", "rect", "ellipse")))
+    _, m = draw(placement(vb, draw(st.sampled_from(["translate", "nuscale", "nuscale", "rotate"]))))
+    cmds = transform_cmds(unit, m)
+    grad = draw(gradient_paint({}, cmds_bbox(cmds)))
+    if grad["k"] != "rad" and draw(st.booleans()):
+        grad = draw(gradient_paint({}, cmds_bbox(cmds)).filter(lambda p: p["k"] == "rad"))
+    flat = {"t": "p", "d": cmds, "fill": {"k": "solid", "c": "#%06x" % draw(st.integers(0, 0xFFFFFF))}, "op": 1.0, "tag": "lib0:identity"}
+    over = {"t": "p", "d": [list(c) for c in cmds], "fill": grad, "op": draw(st.sampled_from([1.0, 1.0, 0.6])), "tag": "lib0:identity"}
+    other_unit = draw(unit_shape(("polygon", "rect")))
+    _, m2 = draw(placement(vb, "translate"))
+    lone = {"t": "p", "d": transform_cmds(other_unit, m2), "fill": dict(grad, units="user") if grad["units"] == "user" else dict(grad), "op": 1.0, "tag": "fresh"}
+    layout = draw(st.sampled_from(["one", "one", "two", "two+lone", "one+lone"]))
+    if layout.startswith("one"):
+        sources = [{"model": {"vb": vb, "nodes": [flat, over]}, "cps": [0xE000]}]
+    else:
+        sources = [{"model": {"vb": vb, "nodes": [flat]}, "cps": [0xE000]}, {"model": {"vb": vb, "nodes": [over]}, "cps": [0xE001]}]
+    if layout.endswith("lone"):
+        sources.append({"model": {"vb": vb, "nodes": [lone]}, "cps": [0xE002]})
+    return {"cfg": cfg, "sources": sources}
+
+
 def cases(tier):
     return st.one_of(vector_case(FORMATS, tier), vector_case(FORMATS, tier), vector_case(FORMATS, tier), vector_case(FORMATS, tier), grid_case(FORMATS, tier), prefix_pair_case(FORMATS, tier),
-                     far_reuse_case(FORMATS, tier), far_reuse_case(FORMATS, tier), paint_variants_case(FORMATS, tier))
+                     far_reuse_case(FORMATS, tier), far_reuse_case(FORMATS, tier), paint_variants_case(FORMATS, tier), overlay_case(FORMATS, tier))
 
 
 def shrink(case):
